@@ -49,7 +49,6 @@ def handle : List String → String
 def tokenWitnesses : List String := [
   "a <<EOF"  /- angle-word -/,
   "{\n\ta # c \\\n\n}\n"  /- backslash-in-comment -/,
-  "{\n\ta \\\n\n}\n"  /- blank-line-after-line-continuation -/,
   " \ufeffa\n"  /- bom -/,
   "a{\nb\n"  /- brace-glued-to-word -/,
   "a {\n\tb }\n"  /- close-brace-not-first-on-line -/,
